@@ -278,6 +278,17 @@ func (r *renderer) render0(t *Term) string {
 	case "div":
 		return fmt.Sprintf("(div %s %s)", r.render(t.Args[0]), t.Val.String())
 	case "mod":
+		if in := t.Args[0]; in.Op == "div" && in.Val != nil && in.Val.Sign() > 0 && t.Val.Sign() > 0 {
+			// digit extraction (x div a) mod b with constants a, b > 0: state the telescoping identity
+			//   a * ((x div a) mod b) = (x mod a*b) - (x mod a)
+			// (valid for SMT-LIB's Euclidean div / mod: (x div a) div b = x div (a*b) for positive divisors).  With it
+			// "the base-b digits of x add up to x" is linear arithmetic over the atoms (x mod c); without it only one
+			// of the three solvers decides the big-endian store of a uint64, and needs 3-18 s for it.
+			x := r.render(in.Args[0])
+			a, b := in.Val, t.Val
+			ab := new(big.Int).Mul(a, b)
+			r.addSide(fmt.Sprintf("(= (* %s (mod (div %s %s) %s)) (- (mod %s %s) (mod %s %s)))", a.String(), x, a.String(), b.String(), x, ab.String(), x, a.String()))
+		}
 		return fmt.Sprintf("(mod %s %s)", r.render(t.Args[0]), t.Val.String())
 	case "select":
 		s := fmt.Sprintf("(select %s %s)", r.render(t.Args[0]), r.render(t.Args[1]))
